@@ -190,7 +190,13 @@ func runFaultScenario(t *testing.T, rec *recorder, f fault, seed uint64, scratch
 			if i := strings.Index(line, "("); i > 0 {
 				fmt.Sscanf(line[i+1:], "%d", &fd)
 			}
-			rec.emit("FaultHit", "line", line, "fd", fd, "eventfd", rec.isEventfd(fd))
+			// a hard fault on a call made for an open connection owes that connection an OnClose with this error
+			// (a failed registration never opened one; a failed removal hits a connection that is closing anyway)
+			owes := ""
+			if f.hard && !rec.isEventfd(fd) && !strings.Contains(line, "EPOLL_CTL_ADD") && !strings.Contains(line, "EPOLL_CTL_DEL") {
+				owes = map[string]string{"ENOMEM": "errno12", "ECONNRESET": "ECONNRESET", "EPIPE": "EPIPE", "ETIMEDOUT": "errno110"}[f.errno]
+			}
+			rec.emit("FaultHit", "line", line, "fd", fd, "eventfd", rec.isEventfd(fd), "owes", owes)
 			hits = append(hits, line)
 		}
 		_ = os.Remove(straceLog)
@@ -212,6 +218,9 @@ func runFaultScenario(t *testing.T, rec *recorder, f fault, seed uint64, scratch
 		rep.Eval(fmt.Sprintf("fatal-%s-%s-%d-%v", f.syscall, f.errno, f.when, f.et))
 		return true, hits
 	}
+	// requests through the handles of the connections of this life (all closed by now, the victim among them) while
+	// fresh connections reuse their descriptor numbers: they must be no-ops
+	staleRequests(rec, h, cfg, rng, dial, scratch, rep)
 	// the engine must still serve a fresh connection
 	probe := &peerSpec{id: 60, seed: rng.Uint64(), network: "tcp", done: make(chan struct{}), total: 100, segs: []int{100}, shut: "fin",
 		peerRead: "normal", consume: "all", reply: "frames", openOut: -1, closeAt: -1, closeHow: "action"}
@@ -286,10 +295,12 @@ func TestVerifFaults(t *testing.T) {
 	ctlHits := map[string]int{}
 	for _, et := range []bool{false, true} {
 		want := map[string]bool{"EPOLL_CTL_ADD": true, "EPOLL_CTL_DEL": true}
+		modLeft := 0
 		if !et {
 			want["EPOLL_CTL_MOD"] = true
+			modLeft = 3 // (several call sites change the interest set: keep going until three of those calls were failed)
 		}
-		maxK := 9
+		maxK := 12
 		if vsup.Thorough() {
 			maxK = 16
 		}
@@ -301,6 +312,11 @@ func TestVerifFaults(t *testing.T) {
 			for _, line := range hits {
 				for op := range want {
 					if strings.Contains(line, op) {
+						if op == "EPOLL_CTL_MOD" {
+							if modLeft--; modLeft > 0 {
+								continue
+							}
+						}
 						delete(want, op)
 					}
 				}
